@@ -172,6 +172,13 @@ def run(ctx, replay_case):
         if i < 4:
             with open(path + ".hex", "w") as f:
                 f.write(data.hex())
+    # very short files: the empty file and single bytes decode strictly as several types (seed C19f: a guard for inputs too short
+    # for format detection refused them also with an explicit --in)
+    for data in [b"", b"\x01", b"\x40", bytes([rnd.randrange(256)]), b"\x00\x01"]:
+        path = os.path.join(tmp, f"short{len(tjobs)}.bin")
+        with open(path, "wb") as f:
+            f.write(data)
+        tjobs.append((path, data))
     # files of the listed known findings are replayed on every run
     try:
         import json as _json
